@@ -20,8 +20,12 @@ def build_real(name, mod, gendir, outdir, repo):
     """Compile shims + the draco .cc files the unit needs, from the working tree. Returns (ok, objs or message)."""
     os.makedirs(outdir, exist_ok=True)
     objs = []
-    shim = os.path.join(VERIF, 'native', 'shims_%s.cc' % name)
-    srcs = [shim] + [os.path.join(repo, s) for s in getattr(mod, 'NATIVE_SOURCES', [])]
+    import importlib
+    srcs = []
+    for u in [name] + list(getattr(mod, 'DEPS', [])):
+        m = mod if u == name else importlib.import_module('units.' + u)
+        srcs.append(os.path.join(VERIF, 'native', 'shims_%s.cc' % u))
+        srcs += [os.path.join(repo, s) for s in getattr(m, 'NATIVE_SOURCES', [])]
     for i, s in enumerate(srcs):
         o = os.path.join(outdir, 'real_%d.o' % i)
         rc, out = sh(['g++'] + cxxflags(repo) + ['-I', gendir, '-c', s, '-o', o])
@@ -36,8 +40,8 @@ def cosim(name, mod, gendir, build, repo, seed, iters):
     if not ok: return {'status': 'error', 'reason': objs}
     # slice object with renamed symbols
     wrap = os.path.join(out, 'slice_wrap.c')
-    open(wrap, 'w').write('#include "verif.h"\n#include "vec.h"\n#include "%s_types.h"\n%s#define RECURSE(f) f\n#include "%s_slice.c"\n' % (
-        name, ''.join('#include "%s"\n' % h for h in getattr(mod, 'SLICE_PRELUDE', [])), name))
+    open(wrap, 'w').write('#include "verif.h"\n#include "vec.h"\n%s#include "%s_types.h"\n%s#define RECURSE(f) f\n#include "%s_slice.c"\n' % (
+        ''.join('#include "%s"\n' % h for h in getattr(mod, 'TYPES_PRELUDE', [])), name, ''.join('#include "%s"\n' % h for h in getattr(mod, 'SLICE_PRELUDE', [])), name))
     so = os.path.join(out, 'slice.o')
     defs = [d for d in getattr(mod, 'DEFS', [])]
     rc, o = sh(['gcc', '-std=gnu11', '-O1', '-w', '-DVERIF_NATIVE_SLICE', '-I', gendir, '-I', os.path.join(VERIF, 'contracts'), '-I', os.path.join(VERIF, 'stubs')] + defs + ['-c', wrap, '-o', so])
